@@ -56,7 +56,7 @@ func (fsEngine) Name() string     { return "fs" }
 func (fsEngine) Property() string { return "C20" }
 func (fsEngine) NumCases(tier string) int {
 	if tier == "thorough" {
-		return 12000
+		return 40000
 	}
 	return 480
 }
